@@ -113,6 +113,9 @@ def conv_guard_factory(repo, log=None):
                     return False
         argt = norm(arg)
         for t, pol in facts:
+            if (not pol) and isinstance(t, ast.UnaryOp) and \
+                    isinstance(t.op, ast.Not):
+                t, pol = t.operand, True       # `if not m: return`
             if not pol:
                 continue
             mc = match_call(t)
